@@ -2523,7 +2523,7 @@ pub(crate) fn h_grammar_versions() {
     text.push(d2 as char);
     text.push('\n');
     text.push_str(rest);
-    let expect = if kind == "too_new" { "BlockRefTooNew" } else if kind == "enum_value_too_new" { "EnumRefTooNew" } else { "BlockRefDeprecated" };
+    let expect = if kind == "too_new" { "BlockRefTooNew" } else if kind == "enum_value_too_new" { "EnumRefTooNew" } else if kind == "enum_value_deprecated" { "EnumRefDeprecated" } else { "BlockRefDeprecated" };
     let strict = load_from_string(&text, None, true);
     match load_from_string(&text, None, false) {
         Ok((_, log)) => {
@@ -2864,5 +2864,37 @@ pub(crate) fn h_every_element_x2() {
             }
         }
         Err(_) => vrt_soft_check(false, "C01 the doubled every-element document loads in strict mode"),
+    }
+}
+
+const EVERY_ELEMENT_IFDATA: &str = include_str!("verif_every_element_ifdata.txt");
+
+fn count_occurrences(hay: &str, needle: &str) -> usize {
+    let mut n = 0;
+    let mut rest = hay;
+    while let Some(p) = rest.find(needle) { n += 1; rest = &rest[p + needle.len()..]; }
+    n
+}
+
+/// ifdata_cleanup() over every place of the grammar where IF_DATA may stand (the doubled every-element document with
+/// conforming and non-conforming IF_DATA blocks alternating): exactly the invalid blocks disappear, wherever they are
+pub(crate) fn h_ifdata_cleanup_all_sites() {
+    vrt_cover(!crate::verif_fp::VERIF_FP_STUB, "generated document and fingerprint module are in place");
+    let n_valid = count_occurrences(EVERY_ELEMENT_IFDATA, "\"ifd\"");
+    let n_invalid = count_occurrences(EVERY_ELEMENT_IFDATA, "\"wrong\"");
+    vrt_cover(n_valid > 10 && n_invalid > 10, "IF_DATA of both kinds at many sites");
+    match load_from_string(EVERY_ELEMENT_IFDATA, None, false) {
+        Ok((mut file, _)) => {
+            let before = file.write_to_string();
+            vrt_check(count_occurrences(&before, "\"ifd\"") == n_valid && count_occurrences(&before, "\"wrong\"") == n_invalid, "C18 every IF_DATA block is kept by load and write, conforming or not");
+            file.ifdata_cleanup();
+            let after = file.write_to_string();
+            vrt_check(count_occurrences(&after, "\"wrong\"") == 0, "C18 ifdata_cleanup removes every IF_DATA block that is flagged invalid, at every site of the grammar");
+            vrt_check(count_occurrences(&after, "\"ifd\"") == n_valid, "C18 ifdata_cleanup keeps every valid IF_DATA block");
+            vrt_check(count_occurrences(&after, "/begin IF_DATA") == n_valid, "C18 after ifdata_cleanup exactly the valid IF_DATA blocks remain");
+            vrt_observe_u64(n_valid as u64);
+            vrt_observe_u64(n_invalid as u64);
+        }
+        Err(_) => vrt_check(false, "C18 structurally balanced IF_DATA never makes loading fail (every site)"),
     }
 }
